@@ -1,6 +1,8 @@
 CONSTANTS
+  WithDone = FALSE
+  TrackerBug = "none"
   Shapes <- ShapesQuick
 INIT Init
 NEXT NextD
-INVARIANTS TypeOK OnlySuccessful QuorumBacked ErrWhenExceeded AtMostOneCall CleanupSafe CleanupExactlyOnce UnusedCancelled ReturnedNotCancelled
+INVARIANTS TypeOK OnlySuccessful QuorumBacked ErrWhenExceeded AtMostOneCall CleanupSafe CleanupExactlyOnce UnusedCancelled ReturnedNotCancelled CompletedJustified CompletedWhenAllDone
 CHECK_DEADLOCK TRUE
